@@ -27,23 +27,23 @@ def run(ctx):
     for acc, fld in (("code", "code"), ("reason", "reason")):
         f = A.fn("wtransport::error::ApplicationClose::%s" % acc)
         ls = [path_sig(p)[1] for p in nonpanic(walk(f))]
-        ctx.check("C04-R1", "ApplicationClose::%s" % acc, len(ls) == 1 and re.match(r"^return [&*(]*self\.%s\b[^,;]*$" % fld, ls[0]) is not None and "::" not in ls[0],
+        ctx.check("C04-R1", "ApplicationClose::%s" % acc, len(ls) == 1 and re.match(r"^return [*(]*self\.%s\b[^,;]*$" % fld, ls[0]) is not None and "::" not in ls[0],
                   "ApplicationClose::%s() does not return the stored field: %s" % (acc, ls), where(f))
 
     ctx.rule("C04-R2", "capsule parsing: type 0x2843, 4 <= len <= 4+1024, big-endian code, reason = payload[4..] as UTF-8")
     shared.registry_values(ctx, "C04-R2", which=("capsule",))
     fn = A.fn("wtransport_proto::capsule::close_wt_session::CloseWebTransportSession::with_capsule")
-    LEN = r"<impl \[T\]>::len\(&\*Capsule::payload\(&\*capsule\)\)"
+    LEN = r"<impl \[T\]>::len\(Capsule::payload\(capsule\)\)"
     HI = SPEC["capsule"]["code_bytes"] + SPEC["capsule"]["max_reason_len"]
-    IDX = r"<impl Index<I> for \[T\]>::index\(&\*Capsule::payload\(&\*capsule\),%s\)"
-    CODE = r"<impl u32>::from_be_bytes\(Result::expect\(<T as TryInto<U>>::try_into\(&\*%s\),[^()]*\)\)" % (IDX % r"RangeTo\(4\)")
-    UTF = r"from_utf8\(&\*%s\)" % (IDX % r"RangeFrom\(4\)")
+    IDX = r"<impl Index<I> for \[T\]>::index\(Capsule::payload\(capsule\),%s\)"
+    CODE = r"<impl u32>::from_be_bytes\(Result::expect\(<T as TryInto<U>>::try_into\(%s\),[^()]*\)\)" % (IDX % r"RangeTo\(4\)")
+    UTF = r"from_utf8\(%s\)" % (IDX % r"RangeFrom\(4\)")
     rows = [
         {"name": "too short->error", "atoms": [r"^%s < 4$" % LEN], "not_events": [r"Index"], "leaf": r"^return Result::Err\(ErrorCode::\w+\)$"},
         {"name": "too long->error", "atoms": [r"^%s >= 4$" % LEN, r"^%s > %d$" % (LEN, HI)], "not_events": [r"Index"], "leaf": r"^return Result::Err\(ErrorCode::\w+\)$"},
-        {"name": "reason not UTF-8->error", "atoms": [r"^%s >= 4$" % LEN, r"^%s <= %d$" % (LEN, HI), r"^%s fails$" % UTF], "leaf": r"^return Err\(from\(apply\(closure:.*\)\)\)$"},
+        {"name": "reason not UTF-8->error", "atoms": [r"^%s >= 4$" % LEN, r"^%s <= %d$" % (LEN, HI), r"^%s fails$" % UTF], "leaf": r"^return Result::Err\(ErrorCode::\w+\)$"},
         {"name": "ok->(be32(payload[..4]), payload[4..])", "atoms": [r"^%s >= 4$" % LEN, r"^%s <= %d$" % (LEN, HI), r"^%s ok$" % UTF],
-         "leaf": r"^return Result::Ok\(CloseWebTransportSession\(%s,<T as ToString>::to_string\(&\*ok\(%s\)\)\)\)$" % (CODE, UTF)},
+         "leaf": r"^return Result::Ok\(CloseWebTransportSession\(%s,<T as ToString>::to_string\(ok\(%s\)\)\)\)$" % (CODE, UTF)},
     ]
     match_table(ctx, "C04-R2", fn, walk(fn), rows, "CloseWebTransportSession::with_capsule")
     # the error closure of the UTF-8 failure returns an ErrorCode constant (never Ok / ApplicationClosed)
@@ -53,26 +53,11 @@ def run(ctx):
               "UTF-8 failure closure does not return an ErrorCode: %s" % ls, where(cl))
     f = A.fn("wtransport_proto::capsule::close_wt_session::CloseWebTransportSession::error_code")
     ls = [path_sig(p)[1] for p in nonpanic(walk(f))]
-    ctx.check("C04-R2", "CloseWebTransportSession::error_code", ls == ["return VarInt::from_u32(*self.error_code)"], "error_code() is not VarInt::from_u32(self.error_code): %s" % ls, where(f))
+    ctx.check("C04-R2", "CloseWebTransportSession::error_code", ls == ["return VarInt::from_u32(self.error_code)"], "error_code() is not VarInt::from_u32(self.error_code): %s" % ls, where(f))
     f = A.fn("wtransport_proto::capsule::close_wt_session::CloseWebTransportSession::reason")
     ls = [path_sig(p)[1] for p in nonpanic(walk(f))]
-    ctx.check("C04-R2", "CloseWebTransportSession::reason", len(ls) == 1 and re.match(r"^return (&\*)?<String as Deref>::deref\(&\*?self\.reason\)$|^return &\*self\.reason$", ls[0]) is not None, "reason() does not return the stored string: %s" % ls, where(f))
-    # Capsule::with_frame: [varint type, varint len, bytes len] over the frame payload
-    fn = A.fn("wtransport_proto::capsule::Capsule::with_frame")
-    PAY = r"&Frame::payload\(&\*frame\)"
-    GV = r"<&\[u8\] as BytesReader>::get_varint\(%s\)" % PAY
-    GB = r"<&\[u8\] as BytesReader>::get_bytes\(%s,\(VarInt::into_inner\(ok\(%s\)\) as usize\)\)" % (PAY, GV)
-    rows = [
-        {"name": "complete->Some(kind,payload)", "atoms": [r"^%s ok$" % GV, r"^CapsuleKind::parse\(ok\(%s\)\) ok$" % GV, r"^%s ok$" % GB],
-         "leaf": r"^return Option::Some\(Capsule\(ok\(CapsuleKind::parse\(ok\(%s\)\)\),&\*ok\(%s\)\)\)$" % (GV, GB)},
-        {"name": "short/unknown->None", "atoms": [r" fails$"], "leaf": r"^return Err\(from\(err\("},
-    ]
-    ps = walk(fn)
-    match_table(ctx, "C04-R2", fn, ps, rows, "Capsule::with_frame")
-    full = [p for p in nonpanic(ps) if path_sig(p)[1].startswith("return Option::Some")]
-    seq = [e for p in full for e in event_strs(p) if e.startswith("<&[u8] as BytesReader>::")]
-    ctx.check("C04-R2", "Capsule::with_frame wire sequence", len(full) == 1 and len(seq) == 3 and "get_varint" in seq[0] and "get_varint" in seq[1] and "get_bytes" in seq[2],
-              "Capsule::with_frame does not read [varint type, varint len, bytes len]: %s" % seq, where(fn))
+    ctx.check("C04-R2", "CloseWebTransportSession::reason", len(ls) == 1 and re.match(r"^return <String as Deref>::deref\(self\.reason\)$|^return self\.reason$", ls[0]) is not None, "reason() does not return the stored string: %s" % ls, where(f))
+    shared.capsule_with_frame_table(ctx, "C04-R2")
 
     ctx.rule("C04-R6", "'clean FIN' is told apart from 'FIN inside a frame' at every layer below ConnectStream::run (its table maps the two to different causes)")
     from rules.C05 import eof_rules
